@@ -57,7 +57,8 @@ class UnitSpec:
     """One lowered unit: which functions of which TUs, which models, spec header, harness file."""
 
     def __init__(self, name, tus, functions, string_model="vstr", models=("exact.h",), spec_header=None,
-                 harness_file=None, prelude=""):
+                 harness_file=None, prelude="", rec_stubs=()):
+        self.rec_stubs = set(rec_stubs)
         self.name = name
         self.tus = tus
         self.functions = functions      # list of (tu, signature)
@@ -89,6 +90,7 @@ def lower_unit(spec, prop):
     shutil.rmtree(b.dir, ignore_errors=True)
     os.makedirs(b.dir)
     u = cxx2c.Unit(spec.string_model)
+    u.rec_stubs = set(getattr(spec, "rec_stubs", ()))
     tus = {}
     for t in spec.tus:
         tus[t] = cast.load_tu(t)
@@ -102,6 +104,8 @@ def lower_unit(spec, prop):
     for m in spec.models:
         parts.append('#include "%s"' % os.path.join(VERIF, "models", m))
     parts.append("int __exc;")
+    for f in sorted(u.fields):
+        parts.append("#define HAVE_%s 1" % f)      # lets a harness mention a field only when the lowered code has it
     if spec.prelude:
         parts.append(spec.prelude)
     if spec.spec_header:
@@ -263,6 +267,20 @@ def run_harness(built, h, canary=False):
     base = ["cbmc", gb] + CBMC_CHECKS
     if h.unwind is not None:
         base += ["--unwind", str(h.unwind), "--unwinding-assertions"]
+        # loops of the harness / spec side (set-up over the object heap, frame snapshots) are bounded
+        # by the heap size, not by the input bound: give them their own unwinding limit
+        hb = getattr(h, "harness_unwind", None) or (int(h.defines.get("HEAP_N", 8)) + 2)
+        if hb > h.unwind and not any(a == "--unwindset" for a in h.extra_cbmc):
+            rc0, out0, err0, _ = run(["cbmc", gb, "--show-loops"], timeout=120)
+            lowered = set(built.lowered.funcs.keys())
+            ids = []
+            for m in re.finditer(r"^Loop (\S+)\.(\d+):", out0, re.M):
+                fn = m.group(1)
+                if fn in lowered or fn.startswith(("std_", "lambda_", "vvec_", "vstr_", "vit_", "vmap_", "vset_", "__CPROVER", "spec_int", "spec_basic", "spec_real", "spec_nonneg", "spec_prefix")):
+                    continue
+                ids.append("%s.%s:%d" % (fn, m.group(2), hb))
+            if ids:
+                base += ["--unwindset", ",".join(ids)]
     base += ["--object-bits", str(h.object_bits or 10)]
     if h.backend == "z3":
         base += ["--z3"]
